@@ -4,7 +4,6 @@
 use std::collections::{BTreeSet, HashMap};
 
 use super::Sim;
-use super::monitors::batch_size;
 use super::stream::{ArmKind, ArmRecord, Injected, LinkSnap, Monitor};
 use crate::refcodec as rc;
 use crate::report::Report;
@@ -100,6 +99,17 @@ impl Monitor for ClassicRef {
     }
 
     fn on_arm(&mut self, rec: &ArmRecord, inj: &[Injected], sim: &Sim, rep: &mut Report) {
+        // The sender's NAK-attribution memory records every routing, also those before lock-step (re)starts: the
+        // model's copy must too, or a sequence held by two links is attributed by the fallback scan in the model
+        // and by the tracker in the sender (false alarm found by the thorough tier at seed 3, DESIGN.md changelog).
+        if (!rec.established || !self.armed || !self.started)
+            && let ArmKind::Client { inj: k } = &rec.kind
+            && let Some(d) = inj.get(*k)
+            && let (Some(u), _) = super::monitors::routing_of(rec, d.bytes.len())
+            && let Some(s) = d.seq
+        {
+            self.owners.route(s, u, rec.t);
+        }
         if !rec.established || !self.armed {
             return;
         }
@@ -177,15 +187,15 @@ impl Monitor for ClassicRef {
                 }
                 // follow the implementation's choice so that the rest of the history stays comparable
                 if let Some(u) = uniq {
-                    let regime = find(&rec.pre, u).map(|p| p.regime);
+                    // whether this routing arm also flushed the link's queue is OBSERVED (queue length after the
+                    // arm), not predicted from a batch threshold: the reference rules do not depend on batch sizes
+                    let post_q = find(&rec.post, u).map(|p| p.queued.max(0) as usize);
                     if let Some(s) = d.seq {
                         self.owners.route(s, u, t);
                     }
                     if let Some(m) = self.links.get_mut(&u) {
                         m.queued.push(d.seq);
-                        if let Some(r) = regime
-                            && m.queued.len() as i32 >= batch_size(r)
-                        {
+                        if post_q.is_some_and(|q| q < m.queued.len()) {
                             Self::flush(m);
                             if rec.broken.contains(&u) {
                                 Self::reset(m);
